@@ -418,7 +418,9 @@ def run_check(prop_id:str, tier:str) -> int:
                 path = v['path']
             else:
                 rdir.mkdir(parents=True, exist_ok=True)
-                path = str(rdir/f'violation-{tier}-s{seed}-{i}.json')
+                # runs against a scratch worktree (seeded changes) keep their files apart
+                prefix = 'scratch-violation' if os.environ.get('VERIF_REPO') else 'violation'
+                path = str(rdir/f'{prefix}-{tier}-s{seed}-{i}.json')
                 with open(path, 'w') as fh:
                     json.dump(dict(property=prop_id, bucket=key, message=v.get('msg'),
                         detail=v.get('detail'), source=v.get('source'), seed=seed,
